@@ -52,4 +52,19 @@ META = {
         "note": "Trusted: Lean kernel; hand-written model; wait interception hook + virtual clock; scheduling slack is an assumption (measured only by the smoke run). Coroutine callers are not exercised by this check.",
         "design_ref": "DESIGN.md §4 C14",
     },
+    "C07": {
+        "text": "Invariant Wf (the listener log is a path of documented edges from Ready ending at the current state) proved to hold initially and across every resume, for every step program, resume sequence, clock and request-stack content; each guarded transition proved to report exactly one legal change or refuse without effect; terminal states absorbing. Tie: step programs interpreted by real coroutines with a recording listener (all callbacks), result/state/events/log diffed per resume; reported edges, chaining and terminal absorption also checked on the implementation's own event strings.",
+        "note": "Trusted: Lean kernel; coroutine model; corosensei context switching; the recording listener.",
+        "design_ref": "DESIGN.md §4 C07",
+    },
+    "C08": {
+        "text": "Theorems: each resume parameter is delivered to the body exactly once and in order (or not at all when the body is not reached); the yielded / returned / panic value is what resume reports; completion reported once and then absorbing; panic contained (static and formatted messages) and resume never unwinds while the context is unfinished. Tie: as C07, payload values generated per case, catch_unwind around every resume.",
+        "note": "Trusted: as C07; unwinding mechanics of catch_unwind.",
+        "design_ref": "DESIGN.md §4 C08",
+    },
+    "C09": {
+        "text": "Invariant: the thread-local TIMESTAMP/CANCEL request stacks are empty after every resume, for every body (plain, timed, cancel, yields made in syscall state) and any interleaving of coroutines on the thread; hence a plain suspend reports (0, not cancelled) and a timed one its own time. Tie: several real coroutines resumed in generated orders on one thread, each resume's report compared.",
+        "note": "Trusted: as C07. Asynchronous (signal) cancel delivery is modelled at yield-point granularity.",
+        "design_ref": "DESIGN.md §4 C09",
+    },
 }
